@@ -149,6 +149,11 @@ def initView (w : W) (v : Nat) : W × Bool :=
   if w.n.view > v then (w, false)
   else ({ w with n := { w.n with view := v } }.emit (.registerElection w.n.cfg.height v), true)
 
+/-- the COMMIT a node creates for (h, v, hash): `CreateCommitMessage(blockHeight, view, blockHash)` -/
+def ownCommit (c : Cfg) (h v hash : Nat) : CMsg := ⟨⟨tC, c.inst, h, v, hash⟩, mySig c, true⟩
+/-- the PREPARE a node creates: `CreatePrepareMessage(blockHeight, view, blockHash)` -/
+def ownPrepare (c : Cfg) (h v hash : Nat) : PMsg := ⟨⟨tP, c.inst, h, v, hash⟩, mySig c⟩
+
 /-! ## prepared / committed checks -/
 
 def isPreprepared (n : Node) (h v hash : Nat) : Bool :=
@@ -172,7 +177,7 @@ def checkCommitted (w : W) (h v hash : Nat) : W :=
           | some b =>
             -- sendCommitIfNotAlreadySent
             let w := if commits.any (fun c => c.sender.id == w.n.cfg.me) then w
-                     else w.emit (.send (others w.n.cfg) (.commit ⟨mkRef w.n.cfg tC v hash, mySig w.n.cfg, true⟩))
+                     else w.emit (.send (others w.n.cfg) (.commit (ownCommit w.n.cfg h v hash)))
             let w := { w with n := { w.n with committed := some b } }
             w.emit (.commit b commits)
 
